@@ -633,11 +633,65 @@ func returnedValues(ret *ssa.Return) []ssa.Value {
 	return all
 }
 
-func isErrorReply(v ssa.Value) bool {
-	if mi, ok := v.(*ssa.MakeInterface); ok {
-		return namedOf(mi.X.Type()) == "ErrorData"
+func isErrorReply(v ssa.Value) bool { return isErrorReplyD(v, 0) }
+
+// isErrorReplyD: the reply value is an error reply: built as *ErrorData here, or the (non-nil) reply result of a
+// first-party helper all of whose non-nil values for that result are error replies (set, errReply := helper(...);
+// if errReply != nil { return errReply }).
+func isErrorReplyD(v ssa.Value, depth int) bool {
+	if depth > 3 {
+		return false
+	}
+	switch x := v.(type) {
+	case *ssa.MakeInterface:
+		return namedOf(x.X.Type()) == "ErrorData"
+	case *ssa.Phi:
+		any := false
+		for _, e := range x.Edges {
+			if isNilConst(e) {
+				continue
+			}
+			any = true
+			if !isErrorReplyD(e, depth+1) {
+				return false
+			}
+		}
+		return any
+	case *ssa.Extract:
+		call, ok := x.Tuple.(*ssa.Call)
+		if !ok {
+			return false
+		}
+		return helperResultIsError(call.Call.StaticCallee(), x.Index, depth)
+	case *ssa.Call:
+		return helperResultIsError(x.Call.StaticCallee(), 0, depth)
 	}
 	return false
+}
+
+func helperResultIsError(cf *ssa.Function, idx int, depth int) bool {
+	if cf == nil || cf.Blocks == nil || !firstParty(cf) {
+		return false
+	}
+	any := false
+	for _, b := range cf.Blocks {
+		for _, in := range b.Instrs {
+			ret, ok := in.(*ssa.Return)
+			if !ok || idx >= len(ret.Results) {
+				continue
+			}
+			for _, rv := range retResults(ret)[idx] {
+				if isNilConst(rv) {
+					continue
+				}
+				any = true
+				if !isErrorReplyD(rv, depth+1) {
+					return false
+				}
+			}
+		}
+	}
+	return any
 }
 
 // R20d: STORE forms write (or delete) the destination on every success path.
